@@ -110,6 +110,30 @@ def is_channel(mm):
         return True
 
 
+def check_emodulus_settings(mm):
+    """Requirement function for all emodulus recipes
+
+    Returns False if the Young's modulus cannot be computed. Otherwise,
+    a string is returned that contains all the optional configuration
+    keys :func:`compute_emodulus` makes use of, such that they are part
+    of the ancillary feature hash (the keys listed in `req_config` depend
+    on the recipe, but `compute_emodulus` looks at all of them).
+    """
+    if not is_channel(mm):
+        return False
+    calccfg = mm.config["calculation"]
+    medium = calccfg.get("emodulus medium", "other")
+    temperature = calccfg.get("emodulus temperature", None)
+    viscosity = calccfg.get("emodulus viscosity", None)
+    if (viscosity is None
+        and not (isinstance(medium, str)
+                 and medium.lower() in features.emodulus.viscosity.KNOWN_MEDIA
+                 )):
+        # We need either a viscosity or a known medium.
+        return False
+    return f"medium={medium} temperature={temperature} viscosity={viscosity}"
+
+
 def register():
     # Please note that registering these things is a delicate business,
     # because the priority has to be chosen carefully.
@@ -131,7 +155,7 @@ def register():
                                      ["imaging", ["pixel size"]],
                                      ["setup", ["flow rate", "channel width"]]
                                      ],
-                         req_func=is_channel,
+                         req_func=check_emodulus_settings,
                          priority=4 + pr)
         AncillaryFeature(feature_name="emodulus",
                          data="case A",
@@ -143,7 +167,7 @@ def register():
                                      ["imaging", ["pixel size"]],
                                      ["setup", ["flow rate", "channel width"]]
                                      ],
-                         req_func=is_channel,
+                         req_func=check_emodulus_settings,
                          priority=0 + pr)
 
     AncillaryFeature(feature_name="emodulus",
@@ -156,5 +180,5 @@ def register():
                                  ["imaging", ["pixel size"]],
                                  ["setup", ["flow rate", "channel width"]]
                                  ],
-                     req_func=is_channel,
+                     req_func=check_emodulus_settings,
                      priority=2)
